@@ -190,7 +190,7 @@ def _value(rng, kind, nodes, class_nodes=None):
 
 def gen_graph(rng, n_nodes=8, n_classes=3, n_props=4, bnodes=False,
               kinds=("node", "str", "int", "lang", "date", "iri"),
-              prop_namespaces=(EX,), multi_class=True, density=0.6, twins=0.06, meta=0.12, odd_classes=0.1, same_local_classes=0.0, clash_props=0.0):
+              prop_namespaces=(EX,), multi_class=True, density=0.6, twins=0.06, meta=0.12, odd_classes=0.1, same_local_classes=0.0, clash_props=0.0, urn_nodes=0.0):
     """A general graph: nodes with 0..2 classes, each (node, prop) present with
     probability `density`, 1..3 values of one randomly chosen kind."""
     classes = [EX + "C%d" % i for i in range(n_classes)]
@@ -214,6 +214,8 @@ def gen_graph(rng, n_nodes=8, n_classes=3, n_props=4, bnodes=False,
     for i in range(n_nodes):
         if bnodes and rng.random() < 0.3:
             nodes.append(("b", "_:b%d" % i))
+        elif urn_nodes and rng.random() < urn_nodes:
+            nodes.append(iri("urn:ex:node:%d" % i))      # instances named with another scheme than http(s)
         else:
             nodes.append(iri(EX + ("item:%d" % i if colon_names else "n%d" % i)))
     triples = set()
@@ -460,7 +462,7 @@ def _pname_ok(local):
     return re.match(r"^[A-Za-z][A-Za-z0-9_]*(:[A-Za-z0-9_]+)*$", local) is not None
 
 
-def to_turtle(triples, group=True, use_a=True, dialect="standard", prefixed_custom_datatypes=False, label_salt=0, base=None, full_nonhttp=False, rebind=False, comments=False, stable_labels=False, clash_labels=False):
+def to_turtle(triples, group=True, use_a=True, dialect="standard", prefixed_custom_datatypes=False, label_salt=0, base=None, full_nonhttp=False, rebind=False, comments=False, stable_labels=False, clash_labels=False, empty_label=None):
     """Turtle with @prefix lines, prefixed names, 'a', ';' and ',' grouping.
     dialect='iter': the subset sheXer's streaming reader documents (closures are
     separate tokens; datatypes written with the xsd: prefix or as full IRIs)."""
@@ -469,6 +471,8 @@ def to_turtle(triples, group=True, use_a=True, dialect="standard", prefixed_cust
     table = _prefix_table(triples)
     if stable_labels:
         table = {ns: "n%d" % i for i, ns in enumerate(sorted(table))}     # depends on the set of namespaces only
+    if empty_label and empty_label in table:
+        table[empty_label] = ""      # '@prefix : <...>' - the label sheXer prefers for its own shapes namespace
     if clash_labels:
         # the document's labels are the caller's usual ones, bound to other namespaces
         pool = ["ex", "xsd", "rdf", "rdfs", "oth", "exn", "xml"]
